@@ -205,6 +205,14 @@ def value : Nat → List Char → Option (Val × List Char)
     | 'b' :: ':' :: rest => let (h, r) := spanP isHex rest; (bytesOfHex h).map fun b => (bytes b, r)
     | 'v' :: '[' :: rest => (ints (fuel + 1) rest).map fun (ns, r) => (vec ns, r)
     | 'd' :: '[' :: rest => (values fuel rest).map fun (xs, r) => (dkeys xs, r)
+    | 'm' :: '[' :: rest =>
+      (values fuel rest).map fun (xs, r) =>
+        -- alternating keys and values
+        let rec split2 : List Val → List Val × List Val
+          | k :: v :: t => let (ks, vs) := split2 t; (k :: ks, v :: vs)
+          | _ => ([], [])
+        let (ks, vs) := split2 xs
+        (dict ks vs [], r)
     | 'w' :: rest =>
       let (ds, r) := spanP isDigit rest
       (match r with
@@ -473,6 +481,13 @@ structure Lib where
   split : List Char → List Char → List (List Char)
   words : List Char → List (List Char)
   lines : List Char → List (List Char)
+  uncons : List Val → Option (Val × List Val)
+  unsnoc : List Val → Option (List Val × Val)
+  findSub : List Char → List Char → Option Nat
+  splitn : List Char → List Char → Nat → List (List Char)
+  rsplit : List Char → List Char → List (List Char)
+  rsplitn : List Char → List Char → Nat → List (List Char)
+  merge : Option (Val → Val → Out Val) → List (List (Val × Val)) → Out (List (Val × Val))
 
 /-- lib.rs, loop for loop -/
 def implLib : Lib where
@@ -519,6 +534,13 @@ def implLib : Lib where
   split := split
   words := words Char.isWhitespace
   lines := lines '\n'
+  uncons := uncons
+  unsnoc := unsnoc
+  findSub := findSub
+  splitn := splitn
+  rsplit := rsplit
+  rsplitn := rsplitn
+  merge := merge
 
 /-! ## `call`: builtin name + arguments ↦ result -/
 
@@ -576,6 +598,67 @@ def iterAll : List Val → Out (List (List Val))
 def toByte : Val → Out Nat
   | .int i => if 0 ≤ i ∧ i < 256 then .ok i.toNat else .throw
   | _ => .throw
+
+/-- `uncons` (lib.rs:2941): the head as a value, the rest in the same kind (a stream stays a
+stream, a dictionary loses the entry); `none` = empty -/
+def unconsV (L : Lib) (s : Val) : Out (Option (Val × Val)) :=
+  match s with
+  | .dict ks vs d =>
+    (match ks, vs with
+     | k :: ks', v :: vs' => .ok (some (.list [k, v], .dict ks' vs' d))
+     | _, _ => .ok none)
+  | .dkeys ks =>
+    (match L.uncons ks with
+     | some (k, ks') => .ok (some (.list [k, .null], .dict ks' (ks'.map fun _ => .null) []))
+     | none => .ok none)
+  | s =>
+    match s.kind?, s.elems? with
+    | some k, some xs =>
+      (match L.uncons xs with
+       | some (h, t) => .ok (some (h, pack k t))
+       | none => .ok none)
+    | _, _ => .throw
+
+/-- `unsnoc` (lib.rs:2995): a stream is forced first (and becomes a list); a dictionary goes
+through `uncons` -/
+def unsnocV (L : Lib) (s : Val) : Out (Option (Val × Val)) :=
+  match s with
+  | .dict _ _ _ => (unconsV L s).map fun r => r.map fun p => (p.2, p.1)
+  | .dkeys _ => (unconsV L s).map fun r => r.map fun p => (p.2, p.1)
+  | s =>
+    match s.kind?, s.forced? with
+    | some k, some xs =>
+      (match L.unsnoc xs with
+       | some (t, e) => .ok (some (pack (kindRule k) t, e))
+       | none => .ok none)
+    | _, _ => .throw
+
+/-- byte offset of the `i`-th char (`str::find` answers in bytes) -/
+def byteOffset (s : List Char) (i : Nat) : Nat := (String.ofList (s.take i)).utf8ByteSize
+
+/-- `obj_in(a, b)` (lib.rs:2497) -/
+def objIn (L : Lib) (a b : Val) : Out Bool :=
+  match a, b with
+  | .str p, .str t => .ok (L.findSub p t).isSome
+  | a, b =>
+    match b.kind?, b.elems? with
+    | some _, some xs => L.any (fun e => .ok (e == a)) xs
+    | _, _ => .throw
+
+/-- the entries of a dictionary value -/
+def entries? : Val → Option (List (Val × Val))
+  | .dict ks vs _ => some (ks.zip vs)
+  | .dkeys ks => some (ks.map fun k => (k, .null))
+  | _ => none
+
+def allEntries : List Val → Option (List (List (Val × Val)))
+  | [] => some []
+  | v :: vs =>
+    match entries? v, allEntries vs with
+    | some e, some es => some (e :: es)
+    | _, _ => none
+
+def dictOf (m : List (Val × Val)) : Val := .dict (m.map (·.1)) (m.map (·.2)) []
 
 /-- the elements the callback of `each` gets to see: up to and including the first one it fails on -/
 def visited (f : Val → Out Val) : List Val → List Val
@@ -655,6 +738,15 @@ def call (L : Lib) (name : String) (args : List Arg) : Out Val :=
       | none => .throw
   | "locate?", [.v s, .f f] =>
     andThen s.iter fun xs => (L.locate f.pred xs).map fun r => optVal (r.map natVal)
+  -- substring search (answers a byte offset)
+  | "locate", [.v (.str t), .v (.str p)] =>
+    (match L.findSub p t with
+     | some i => .ok (natVal (byteOffset t i))
+     | none => .throw)
+  | "locate?", [.v (.str t), .v (.str p)] =>
+    (match L.findSub p t with
+     | some i => .ok (natVal (byteOffset t i))
+     | none => .ok .null)
   | "locate", [.v s, .v b] =>
     andThen s.iter fun xs => andThen (L.locate (fun x => .ok (x == b)) xs) fun r =>
       match r with
@@ -687,6 +779,73 @@ def call (L : Lib) (name : String) (args : List Arg) : Out Val :=
     (match splitFn (.v a :: .v b :: rest) with
      | some (vals, none) => L.extremum ncmp .gt vals
      | some (vals, some f) => L.extremum f.cmp0 .gt vals
+     | none => .throw)
+  -- uncons / unsnoc and their soft forms
+  | "uncons", [.v s] => andThen (unconsV L s) fun r =>
+      match r with
+      | some (h, t) => .ok (.list [h, t])
+      | none => .throw
+  | "uncons?", [.v s] => andThen (unconsV L s) fun r =>
+      match r with
+      | some (h, t) => .ok (.list [h, t])
+      | none => .ok .null
+  | "unsnoc", [.v s] => andThen (unsnocV L s) fun r =>
+      match r with
+      | some (t, e) => .ok (.list [t, e])
+      | none => .throw
+  | "unsnoc?", [.v s] => andThen (unsnocV L s) fun r =>
+      match r with
+      | some (t, e) => .ok (.list [t, e])
+      | none => .ok .null
+  -- distinct elements
+  | "count_distinct", [.v s] => andThen s.iter fun xs => (L.unique xs).map fun u => natVal u.length
+  | "count_distinct", [.v s, .f f] =>
+    andThen s.iter fun xs => andThen (L.map f.call1 xs) fun ks => (L.unique ks).map fun u => natVal u.length
+  | "set", [.v s] =>
+    andThen s.iter fun xs => (L.unique xs).map fun u => .dict u (u.map fun _ => .null) []
+  -- nested maps
+  | "mapmap", [.v s, .f f] =>
+    andThen s.iter fun xs =>
+      (L.map (fun e => andThen e.iter fun ys => (L.map f.call1 ys).map Val.list) xs).map Val.list
+  | "mapply", [.v s, .f f] =>
+    andThen s.iter fun xs => (L.map (fun e => andThen e.iter fun ys => f.apply ys) xs).map Val.list
+  | "vector_map", [.v s, .f f] =>
+    andThen s.iter fun xs =>
+      (L.map (fun e => andThen (f.call1 e) fun r =>
+          match r with
+          | .int i => .ok (.int i)
+          | _ => .throw) xs).map (pack .vector)
+  -- join with a fixed separator
+  | "unwords", [.v s] => andThen s.iter fun xs => .ok (.str (L.join [' '] display xs))
+  | "unlines", [.v s] => andThen s.iter fun xs => .ok (.str (L.join ['\n'] display xs ++ ['\n']))
+  -- membership
+  | "in", [.v a, .v b] => (objIn L a b).map ofBool
+  | "not_in", [.v a, .v b] => (objIn L a b).map fun r => ofBool (!r)
+  | "contains", [.v b, .v a] => (objIn L a b).map ofBool
+  -- index / value views
+  | "keys", [.v s] =>
+    (match s with
+     | .dkeys ks => .ok (.list ks)
+     | .dict ks _ _ => .ok (.list ks)
+     | s => andThen s.iter fun xs => .ok (.list ((L.enumerate xs).map fun e => natVal e.1)))
+  | "values", [.v s] =>
+    (match s with
+     | .dkeys ks => .ok (.list (ks.map fun _ => .null))
+     | .dict _ vs _ => .ok (.list vs)
+     | s => andThen s.iter fun xs => .ok (.list ((L.enumerate xs).map fun e => e.2)))
+  -- bounded / right-to-left split
+  | "split", [.v (.str s), .v (.str sep), .v (.int n)] =>
+    .ok (.list ((L.splitn s sep n.toNat).map .str))
+  | "rsplit", [.v (.str s), .v (.str sep)] => .ok (.list ((L.rsplit s sep).map .str))
+  | "rsplit", [.v (.str s), .v (.str sep), .v (.int n)] =>
+    .ok (.list ((L.rsplitn s sep n.toNat).map .str))
+  -- dictionaries
+  | "merge", a :: b :: rest =>
+    (match splitFn (a :: b :: rest) with
+     | some (ds, f) =>
+       (match allEntries ds with
+        | some es => (L.merge (f.map fun f => f.call2) es).map dictOf
+        | none => .throw)
      | none => .throw)
   | "fold", [.v s, .f f] => andThen s.iter fun xs => L.fold1 f.call2 xs
   | "fold", [.v s, .f f, .v z] => andThen s.iter fun xs => L.foldFrom f.call2 z xs
@@ -757,6 +916,8 @@ def chains (f g : String) : Bool :=
   | "ziplongest", "ziplongest" => true
   | "ziplongest", "with" => true
   | "**", "**" => true
+  | "merge", "merge" => true
+  | "merge", "with" => true
   | _, _ => false
 
 def evalChainGo (L : Lib) : String → List Arg → List (String × Arg) → Out Val
